@@ -512,6 +512,39 @@ func nestings(depth int) []Nest {
 	return out
 }
 
+
+// FuzzReshape (thorough tier): coverage-guided fuzzing of the reshaping helpers on one slice
+// argument (values = bytes mod 4), a signed count and a predicate; same run oracle.
+func FuzzReshape(f *testing.F) {
+	f.Add(uint8(0), uint8(1), int16(3), []byte{1, 2, 3, 0, 1, 2, 3})
+	f.Add(uint8(1), uint8(4), int16(-2), []byte{0, 0, 1})
+	f.Fuzz(func(t *testing.T, fi, pi uint8, n int16, data []byte) {
+		if len(data) > 3000 {
+			data = data[:3000]
+		}
+		fns := []string{"Chunk", "Drop", "Partition", "Filter", "Reject", "DropWhile", "DropRightWhile", "GroupBy", "Reverse", "Shuffle", "Map", "ForEach", "ForEachRight", "Reduce", "Merge"}
+		c := Case{Fn: fns[int(fi)%len(fns)], Pred: preds[int(pi)%len(preds)], N: int(n)}
+		c.S = make([]int, len(data))
+		for i, b := range data {
+			c.S[i] = int(b) % 4
+		}
+		switch c.Fn {
+		case "Chunk":
+			if c.N <= 0 {
+				c.N = 1 - c.N
+			}
+		case "GroupBy":
+			c.N = (c.N%4+4)%4 + 1
+		case "Merge":
+			k := len(c.S) / 3
+			c.More = [][]int{c.S[k : 2*k], c.S[2*k:]}
+			c.S = c.S[:k]
+		}
+		w := core.Probe(func(sig, detail string) { t.Fatalf("VERIF-SIG %s\nVERIF-CASE %s\n%s", sig, core.JSON(c), detail) })
+		run(w, c)
+	})
+}
+
 func TestProp(t *testing.T) {
 	r := core.Start(t, "C12")
 	defer r.Finish()
